@@ -10,24 +10,22 @@ Definition ids (s : list promise) : list Z := map p_id s.
     strictly below its topmost occurrence remain *)
 Lemma pop_until_found :
   forall c above p below,
-    p_id p = c -> ~ In c (ids above) ->
+    stands_for c p = true -> forallb (fun q => negb (stands_for c q)) above = true ->
     pop_until c (above ++ p :: below) = below.
 Proof.
   intros c above p below Hp. induction above as [|q above IH]; intros Hn; cbn [app pop_until].
-  - rewrite Hp, Z.eqb_refl. reflexivity.
-  - cbn [ids map In] in Hn.
-    destruct (Z.eqb_spec (p_id q) c) as [E|E]; [exfalso; apply Hn; left; exact E|].
-    apply IH. intro H. apply Hn. right. exact H.
+  - rewrite Hp. reflexivity.
+  - cbn [forallb] in Hn. apply andb_prop in Hn as [Hq Hn].
+    destruct (stands_for c q); [discriminate|]. apply IH. exact Hn.
 Qed.
 
 (** ... and if it is not on the stack, popUntil empties the stack *)
 Lemma pop_until_missing :
-  forall c s, ~ In c (ids s) -> pop_until c s = [].
+  forall c s, forallb (fun q => negb (stands_for c q)) s = true -> pop_until c s = [].
 Proof.
   intros c s. induction s as [|q s IH]; intros Hn; cbn [pop_until]; [reflexivity|].
-  cbn [ids map In] in Hn.
-  destruct (Z.eqb_spec (p_id q) c) as [E|E]; [exfalso; apply Hn; left; exact E|].
-  apply IH. intro H. apply Hn. right. exact H.
+  cbn [forallb] in Hn. apply andb_prop in Hn as [Hq Hn].
+  destruct (stands_for c q); [discriminate|]. apply IH. exact Hn.
 Qed.
 
 (** popUntil never adds frames and keeps a suffix of the stack *)
@@ -35,7 +33,7 @@ Lemma pop_until_suffix : forall c s, exists pre, s = pre ++ pop_until c s.
 Proof.
   intros c s. induction s as [|q s [pre IH]]; cbn [pop_until].
   - exists []. reflexivity.
-  - destruct (Z.eqb (p_id q) c).
+  - destruct (stands_for c q).
     + exists [q]. reflexivity.
     + exists (q :: pre). cbn. rewrite <- IH. reflexivity.
 Qed.
